@@ -308,6 +308,24 @@ impl ExpertNode {
 //@|     invariant !self.force_stale, !self.will_fire_all_callbacks, self.children@ == old(self).children@, self.num_invalid_children == old(self).num_invalid_children, old(self).num_invalid_children <= 0,
 //@end
 
+//@extract fn ExpertNode::before_main_computation!must_fire
+//@ file: src/kind/expert.rs
+//@ impl: impl ExpertNode
+//@ name: before_main_computation
+//@ as: fn before_main_computation__a_rearmed_node_fires_its_callbacks_before_it_recomputes(&mut self) -> (r: Result<(), Invalid>)
+//@ cells: children, force_stale, num_invalid_children, will_fire_all_callbacks
+//@ tracing: yes
+//@ panics: diverge
+//@ rule R8: `child.on_change()` => `{ child.on_change(); vx_diverge() }` x*
+//@ rule R7 re: `for (\w+) in (\w+)\s*\{` => `for \1 in vx_it: \2 {` x*
+//@ props: C14
+//@ contract:
+//@|     requires old(self).will_fire_all_callbacks, old(self).num_invalid_children <= 0, old(self).children@.len() > 0,
+//@|     ensures false, // [on-the-first-recompute-after-being-re-armed-the-dependency-callbacks-are-reached-before-the-recompute]
+//@ loop? 0:
+//@|     invariant vx_it.index@ == 0, cloned@.len() > 0,
+//@end
+
 //@extract fn ExpertNode::observability_change
 //@ file: src/kind/expert.rs
 //@ impl: impl ExpertNode
